@@ -47,6 +47,19 @@ def run(db, res, tier):
   # the reset_data call receives the mask as its `reset` argument: its own mask is built from it
   # (reset_data copies/casts the mask into reset_input; checked by C13's gate rule on reset_data itself)
 
+  # the validity test is applied to the caller's own key array (or to the broadcast scalar), never to a converted copy:
+  # a narrowing cast (int64 -> int32) before the range test can turn an out-of-range index into a valid one
+  from ..hostir import Phi, Temp
+
+  kin = dict((p.name, v) for p, v in l_mask[0].bindings).get("key_in")
+  alts = kin.alts if isinstance(kin, Phi) else [kin]
+  bad_alts = [a.text for a in alts if a is not None and not (a.text == "key" or (isinstance(a, Temp) and a.how == "full"))]
+  res.ob(
+    not bad_alts,
+    "valid_key_mask|key-provenance",
+    Finding("R-GATE.6", "io.reset_data_keyframe.valid_key_mask|key_in|converted-copy", f"the key validity mask is computed on {bad_alts} rather than on the caller's key array (or the broadcast scalar key): a value conversion before the range test `0 <= key < nkey` can make an out-of-range keyframe index look valid", l_mask[0].loc),
+    sample={"key_in_alternatives": [a.text for a in alts if a is not None]},
+  )
   # validity mask: 0 <= key < nkey with key = key_in[worldid], nkey <- m.nkey
   lcm = LaunchCtx(db, l_mask[0])
   ws = [a for a in lcm.keval.accesses if a.is_write and a.root == "mask_out"]
@@ -119,7 +132,7 @@ def run(db, res, tier):
   if rng:
     conds = " ".join(t for t, _ in rng[0].pc)
     res.ob("< 0" in conds and ">= m.nkey" in conds, "scalar-key-range|formula", Finding("R-GATE.2", "io.reset_data_keyframe|scalar-key-formula", f"scalar key validation is `{conds}`, expected `key < 0 or key >= m.nkey`", kfi.file))
-  res.rule_text = "R-LAYOUT: the fields written by reset_keyframe_data, their key_* sources, world/key indices and loop extents equal mj_resetDataKeyframe's {time,qpos,qvel,act,mocap_pos,mocap_quat,ctrl}; R-GATE: all accesses are dominated by the validity mask `0 <= key < nkey`, reset_data(mask) precedes the copy, scalar keys out of range raise before any launch"
+  res.rule_text = "R-LAYOUT: the fields written by reset_keyframe_data, their key_* sources, world/key indices and loop extents equal mj_resetDataKeyframe's {time,qpos,qvel,act,mocap_pos,mocap_quat,ctrl}; R-GATE: the validity mask is computed on the caller's key array itself (no converted copy), all accesses are dominated by the validity mask `0 <= key < nkey`, reset_data(mask) precedes the copy, scalar keys out of range raise before any launch"
   res.explanation = "Decides the field-set, source, extent, masking, ordering and rejection clauses of C14 for every key array and world count. Values of a fresh reset are C13's subject."
   res.extra["analysed"] = {"kernels": [kfi.key, mfi.key], "host_events": len(evs), "reset_data_launches": len(inner)}
   res.assumptions += ["mj_resetDataKeyframe's field set as recorded in tables/mujoco_layouts.py"]
